@@ -74,12 +74,17 @@ fn nested(
     stack: &mut Vec<Vec<f64>>,
     forward: bool,
 ) -> usize {
+    #[cfg(geodesy_verif)]
+    step.verif_dispatch(forward, operands.len());
     let ran_fwd = step.descriptor.inverted != forward;
-    if ran_fwd {
+    let count = if ran_fwd {
         steps_fwd(step, ctx, operands, stack)
     } else {
         steps_inv(step, ctx, operands, stack)
-    }
+    };
+    #[cfg(geodesy_verif)]
+    step.verif_applied(count, ran_fwd);
+    count
 }
 
 fn is_pipeline_step(step: &Op) -> bool {
